@@ -155,9 +155,11 @@ class Tr:
         self.lets = []
         self.used = []                  # lean identifiers of the enclosing scope that were read (for lambda lifting)
         self.paired = set()             # (accumulator, counter) pairs updated in the same block
+        self.src = {}                   # loop / comprehension variable -> source text of the iterable it is drawn from
 
     def sub(self):
         t = Tr(self.gen, self.spec, self.env)
+        t.src = dict(getattr(self, 'src', {}))      # loop / comprehension variable -> source text of the iterable it is drawn from
         t.dead = dict(self.dead)
         t.fresh = set(self.fresh)
         t.used = self.used
@@ -278,6 +280,13 @@ class Tr:
             (a, ta), (b, tb) = self.expr(l), self.expr(r)
             if ta != tb or ta not in ('attr', 'clique'):
                 fail(n, f'unsupported comparison of {ta} and {tb}')
+            if isinstance(op, ast.IsNot):
+                # the CONTRACT `x is not y` = `x != y` holds for two elements drawn from the SAME tuple / list only: equal attribute names
+                # coming from different containers (the domain and a clique, say) need not be the same object
+                src = getattr(self, 'src', {})
+                if not (isinstance(l, ast.Name) and isinstance(r, ast.Name) and l.id in src and src.get(l.id) == src.get(r.id)):
+                    fail(n, 'identity comparison of two values that are not drawn from the same container '
+                            f'({ast.unparse(l)} from `{src.get(getattr(l, "id", None))}`, {ast.unparse(r)} from `{src.get(getattr(r, "id", None))}`)')
             return f'({a} {"==" if isinstance(op, ast.Eq) else "!="} {b})', 'bool'
         if isinstance(op, ast.Gt):
             a, b = self.typed(l, 'nat'), self.typed(r, 'nat')
@@ -332,6 +341,7 @@ class Tr:
         v = g.target.id
         inner = self.sub()
         inner.env[v] = (v, ELEM[tx])
+        inner.src[v] = ast.unparse(g.iter)
         inner.dead.pop(v, None)
         if g.ifs:
             c = inner.typed(g.ifs[0], 'bool')
@@ -735,6 +745,7 @@ class Tr:
         inner = self.sub()
         inner.lets = []
         inner.env[var] = (var, et)
+        inner.src[var] = ast.unparse(it)
         inner.dead.pop(var, None)
         bound = assigned_names(body)
         state = [x for x in self.env if x in bound and x != var]
